@@ -116,9 +116,16 @@ def dep_enum_discriminants(crate, enum_name):
     if not m:
         raise core.InfraError("translator: %s not in Cargo.lock" % crate)
     cands = glob.glob(os.path.expanduser("~/.cargo/registry/src/*/%s-%s/src/types.rs" % (crate, m.group(1))))
-    if not cands:
-        raise core.InfraError("translator: source of %s %s not found in the cargo registry" % (crate, m.group(1)))
-    text = open(cands[0]).read()
+    if cands:
+        text = open(cands[0]).read()
+    else:
+        # not unpacked yet (cargo unpacks at the first build): read the file out of the downloaded .crate archive
+        import tarfile
+        arch = glob.glob(os.path.expanduser("~/.cargo/registry/cache/*/%s-%s.crate" % (crate, m.group(1))))
+        if not arch:
+            raise core.InfraError("translator: source of %s %s not found in the cargo registry" % (crate, m.group(1)))
+        with tarfile.open(arch[0], "r:gz") as tf:
+            text = tf.extractfile("%s-%s/src/types.rs" % (crate, m.group(1))).read().decode("utf-8")
     m = re.search(r"pub enum %s \{(.*?)\n\}" % enum_name, text, re.S)
     if not m:
         raise core.InfraError("translator: enum %s not found in %s" % (enum_name, crate))
